@@ -307,6 +307,11 @@ func (hs *clientHandshakeStateGM) doFullHandshake() error {
 		if err != nil {
 			return err
 		}
+	} else if _, isECC := keyAgreement.(*eccKeyAgreementGM); isECC {
+		// GM/T 0024: the ECC suites always carry the signed ServerKeyExchange; without it the
+		// server never proves possession of the signing key
+		c.sendAlert(alertUnexpectedMessage)
+		return errors.New("tls: server did not send the ServerKeyExchange message")
 	}
 
 	var chainToSend *Certificate
